@@ -799,6 +799,50 @@ def run_returned_container(chk, spec):
 				f"{spec!r}: after the caller edited the first result in place, the same call gives {short(again.value if again.ok else again, 200)} instead of {short(kept, 200)}")
 
 
+def run_derived_rename_accessors(chk, spec):
+	"""renaming a column of a DERIVED table (copy, sort, slice, mask, copy module, selection, join) - by rename_column, rename_columns or through a handle -
+	leaves the source's names and its dot accessors as they were, and the other way round"""
+	import copy as _copy, warnings
+	with warnings.catch_warnings():
+		warnings.simplefilter("ignore")
+		t = Table({"price": [3, 1, 2], "qty": [4, 5, 6], "k": [1, 2, 3]})
+		if spec["touch_first"]:
+			call(dir, t); call(lambda: t.price)
+		mk = {"copy": lambda: t.copy(), "sort": lambda: t.sort_by("k"), "slice": lambda: t[0:3], "mask": lambda: t[[True, True, True]], "copy.copy": lambda: _copy.copy(t), "deepcopy": lambda: _copy.deepcopy(t),
+			"select": lambda: t["price", "qty", "k"], "stack": lambda: t >> {"extra": [0, 0, 0]}, "self-join": lambda: t.inner_join(Table({"kk": [1, 2, 3]}), "k", "kk")}[spec["deriv"]]
+		d = call(mk)
+		if not d.ok or not isinstance(d.value, Table):
+			chk.skip("derivation-not-available")
+			return
+		u = d.value
+		src, dst = (u, t) if spec["rename_side"] == "derived" else (t, u)
+		how = spec["how"]
+		r = call({"rename_column": lambda: src.rename_column("price", "cost"), "rename_columns": lambda: src.rename_columns(["price", "qty"], ["cost", "n"]), "handle": lambda: setattr(src["price"], "name", "cost")}[how])
+		chk.judged("pair", ("derived-rename-accessors", spec["deriv"], how, spec["rename_side"], spec["touch_first"]))
+		if not r.ok:
+			chk.skip("rename-refused")
+			return
+		# the OTHER table still answers to its old names, by every route
+		names = dst.column_names()
+		if names[:2] != ["price", "qty"]:
+			chk.fail("a write through one handle leaves every other object unchanged", f"frame/rename-reaches-other-table/{spec['deriv']}/{how}/names", f"{spec!r}: the other table's names are now {names!r}")
+			return
+		g = call(lambda: dst.price)
+		if not g.ok or g.value is not dst.cols()[0]:
+			chk.fail("a write through one handle leaves every other object unchanged", f"frame/rename-reaches-other-table/{spec['deriv']}/{how}/accessor", f"{spec!r}: other.price -> {short(g, 100)} after the rename on the {spec['rename_side']} side")
+			return
+		g2 = call(lambda: dst.cost)
+		if g2.ok:
+			chk.fail("a write through one handle leaves every other object unchanged", f"frame/rename-reaches-other-table/{spec['deriv']}/{how}/new-accessor-answers", f"{spec!r}: other.cost resolves ({short(g2.value, 80)}) although only the {spec['rename_side']} table was renamed")
+			return
+		w = call(dst.__setitem__, (0, "price"), 77)
+		if not w.ok or list(dst.cols()[0]._underlying)[0] != 77:
+			chk.fail("a write through one handle leaves every other object unchanged", f"frame/rename-reaches-other-table/{spec['deriv']}/{how}/item-assignment", f"{spec!r}: other[0, 'price'] = 77 -> {w!r}; column {list(dst.cols()[0]._underlying)!r}")
+			return
+		if "price" in dir(src) or "cost" not in dir(src):
+			chk.fail("a rename renames the table it was asked on", f"frame/rename-lost/{spec['deriv']}/{how}", f"{spec!r}: the renamed table advertises {[n for n in dir(src) if n in ('price', 'cost', 'qty', 'n')]!r}")
+
+
 def run_history(chk, spec):
 	m = pool.Machine(chk, spec["seed"], spec["nsteps"], spec.get("profile", "mixed"))
 	try:
@@ -807,7 +851,7 @@ def run_history(chk, spec):
 		chk.counters["history_steps"] += len(m.trace)
 
 
-RUNNERS = {"returned_container": run_returned_container, "unnamed_keys": run_unnamed_keys, "handle_survives": run_handle_survives, "pure_cells": run_pure_cells, "refusal": run_refusal, "pair": run_pair, "history": run_history, "recompute": recompute.runner("C01")}
+RUNNERS = {"derived_rename_accessors": run_derived_rename_accessors, "returned_container": run_returned_container, "unnamed_keys": run_unnamed_keys, "handle_survives": run_handle_survives, "pure_cells": run_pure_cells, "refusal": run_refusal, "pair": run_pair, "history": run_history, "recompute": recompute.runner("C01")}
 
 def setup(chk):
 	pool.CENSUS.install()
@@ -828,6 +872,11 @@ def run(chk):
 	for handle in ("item", "attr", "cols"):
 		for write in ("cell", "row", "row-names", "row-negative", "column", "region-table", "region-list", "mask-rows", "scalar-broadcast", "cell-promotes", "row-promotes", "column-promotes", "region-promotes", "cell-none", "mask-promotes"):
 			chk.case("handle_survives", {"handle": handle, "write": write}, "handle-survives")
+	for deriv in ("copy", "sort", "slice", "mask", "copy.copy", "deepcopy", "select", "stack", "self-join"):
+		for how in ("rename_column", "rename_columns", "handle"):
+			for side in ("derived", "source"):
+				for touch_first in (False, True):
+					chk.case("derived_rename_accessors", {"deriv": deriv, "how": how, "rename_side": side, "touch_first": touch_first}, "derived-rename-accessors")
 	for reader in READERS:
 		for renamed in (False, True):
 			chk.case("returned_container", {"reader": reader, "renamed": renamed}, "returned-container")
